@@ -230,10 +230,21 @@ def extract_fn(item, opts, blocks, rewrites_log, as_stub=False):
                 edits.append((tk(qq)[2], tk(qq)[3], R('8', 'self', nm)))
         rewrites_log.append({'rule': 'R8', 'fn': item.name, 'before': 'self receiver of a trait default method', 'after': opts['selfparam'] + ' ' + opts.get('generics', '')})
 
+    # ---- R8c: associated types of the impl's trait: `Self::Value` etc. replaced by the right-hand sides of the impl's own
+    #      `type Value = ...;` lines (given as assoc="Value=u64,Root=T")
+    assoc_done = set()
+    if opts.get('assoc'):
+        amap = dict(kv.split('=', 1) for kv in opts['assoc'].split(','))
+        for q in range(fnp, bodye - 2):
+            if tk(q)[0] == 'id' and tk(q)[1] == 'Self' and tk(q + 1)[1] == '::' and tk(q + 2)[0] == 'id' and tk(q + 2)[1] in amap:
+                edits.append((tk(q)[2], tk(q + 2)[3], R('8', text[tk(q)[2]:tk(q + 2)[3]], amap[tk(q + 2)[1]])))
+                assoc_done.add(q)
+        rewrites_log.append({'rule': 'R8', 'fn': item.name, 'before': 'Self::<assoc type>', 'after': opts['assoc']})
+
     # ---- R8: a trait-impl method extracted as a free/inherent function: `Self` becomes the impl's own type
     if opts.get('selfty'):
         for q in range(fnp, bodye):
-            if tk(q)[0] == 'id' and tk(q)[1] == 'Self':
+            if tk(q)[0] == 'id' and tk(q)[1] == 'Self' and q not in assoc_done:
                 edits.append((tk(q)[2], tk(q)[3], R('8', 'Self', opts['selfty'])))
         rewrites_log.append({'rule': 'R8', 'fn': item.name, 'before': 'Self', 'after': opts['selfty']})
 
@@ -267,7 +278,15 @@ def extract_fn(item, opts, blocks, rewrites_log, as_stub=False):
                     names = [w for w in pat if re.match(r'[A-Za-z_]\w*$', w)]
                     def is_ref(nm):
                         i = pat.index(nm); return i > 0 and pat[i - 1] == '&'
-                    if x2 is None:
+                    if x2 is None and m1 == 'iter_mut' and len(names) == 1 and body_txt.lstrip().startswith('{'):
+                        # X.iter_mut().for_each(|x| { BODY })  ->  for k in 0..X.len() { let x = &mut X[k]; BODY }
+                        c = names[0]; tgt = x1
+                        nloop += 1
+                        inner = body_txt.strip()[1:-1]
+                        new = ('for verif_k in verif_it: 0..%s.len() %s{ let %s = &mut %s[verif_k]; %s %s}'
+                               % (tgt, G('iterloop %d' % nloop, '\n' + blocks.get('iterloop %d' % nloop, '').rstrip() + '\n'), c, tgt, inner,
+                                  G('iterend %d' % nloop, '\n' + blocks.get('iterend %d' % nloop, '').rstrip() + '\n')))
+                    elif x2 is None:
                         if m1 != 'iter_mut' or len(names) != 1: raise GenErr('%s: R4: unsupported single-iterator shape' % item.name)
                         c = names[0]; tgt = x1
                         mm = re.match(r'\s*\*\s*%s\s*=(?!=)(.*)$' % re.escape(c), body_txt, re.S)
@@ -596,7 +615,7 @@ def parse_extract_blocks(lines, i):
                 which = mm.group(1) or '1'
                 blocks['_rewrites'].append((mm.group(2).replace('\\"', '"'), mm.group(3).replace('\\"', '"'), 'all' if which == 'all' else int(which)))
                 cur = None
-            elif d.split()[0] in ('sig', 'start', 'tail'):
+            elif d.split()[0] in ('sig', 'start', 'tail', 'header'):
                 cur = d.split()[0]
             elif d.split()[0] == 'loopiter':
                 cur = 'loopiter %d %s' % (int(d.split()[1]), d.split()[2])
@@ -663,7 +682,7 @@ def generate(unit_name):
         d = m.group(1).strip()
         words = d.split()
         if not words: i += 1; continue
-        if words[0] in ('extract', 'extract!', 'import'): words = shlex.split(d)
+        if words[0] in ('extract', 'extract!', 'import', 'fragment'): words = shlex.split(d)
         if words[0] == 'unit': i += 1; continue
         if words[0] == 'property': u.properties = words[1:]; i += 1; continue
         if words[0] == 'min_verified': u.min_verified = int(words[1]); i += 1; continue
@@ -689,6 +708,55 @@ def generate(unit_name):
                                 'clauses': count_clauses(blocks)})
             u.emit('/*@X %s::%s L%d*/\n' % (path, name, item.line), ('spec', f, n))
             u.emit(txt + '\n', ('src', path, item.line, f, n))
+            i = nxt; continue
+        if words[0] == 'fragment':
+            # //@ fragment <path> <fn> [impl=..] first="<code prefix>" [firstn=k] last="<code prefix>" [lastn=k] [mode=..]
+            # followed by blocks: //@ header (hand-written signature of the synthetic function) and //@ sig (its contract).
+            # Rule R6: the statements from the one starting at `first` to the end of the one starting at `last` are pasted verbatim
+            # as the body; the surrounding control flow of <fn> is NOT verified.
+            words = shlex.split(d)
+            rest, opts = parse_kv(words[1:])
+            blocks, nxt = parse_extract_blocks(lines, i)
+            path, name = rest[0], rest[1]
+            item = find_item(path, 'fn', name, opts.get('impl'))
+            text = item.text; toks = tokenize(text); ci = code_tokens(toks)
+            occ1 = find_code_occurrences(text, toks, ci, 0, len(ci) - 1, opts['first'])
+            occ2 = find_code_occurrences(text, toks, ci, 0, len(ci) - 1, opts['last'])
+            n1 = int(opts.get('firstn', 1)); n2 = int(opts.get('lastn', 1))
+            if n1 > len(occ1) or n2 > len(occ2): raise GenErr('%s: fragment anchors not found' % name)
+            s0 = occ1[n1 - 1][0]
+            # end of the statement that starts at `last`
+            pp = next(k for k in range(len(ci)) if toks[ci[k]][2] >= occ2[n2 - 1][0])
+            depth = 0; e0 = None
+            while pp < len(ci):
+                y = toks[ci[pp]]
+                if y[0] == 'punct':
+                    if y[1] in OPEN: depth += 1
+                    elif y[1] in CLOSE: depth -= 1
+                    elif y[1] == ';' and depth == 0: e0 = y[3]; break
+                pp += 1
+            if e0 is None or e0 <= s0: raise GenErr('%s: fragment end not found' % name)
+            import types
+            frag = types.SimpleNamespace(text=text[s0:e0], name=name + '#fragment', line=item.line + text.count('\n', 0, s0), path=path, kind='fn', impl=item.impl)
+            fblocks = {'_rewrites': blocks.get('_rewrites', []), '_lines': {}}
+            for kx, vx in blocks.items():
+                if kx.startswith('before ') or kx.startswith('after '): fblocks[kx] = vx
+            wrapper = types.SimpleNamespace(text='fn verif_frag() {' + frag.text + '}', name=frag.name, line=frag.line, path=path, kind='fn', impl=item.impl)
+            o2 = dict(opts); o2.pop('first', None); o2.pop('last', None)
+            body = extract_fn(wrapper, o2, fblocks, u.rewrites)
+            # strip the synthetic wrapper again: keep what is between the first '{' and the last '}'
+            inner = body[body.index('{') + 1: body.rindex('}')]
+            check_erasure(types.SimpleNamespace(text=frag.text, name=frag.name), inner)
+            header = blocks.get('header', '').strip()
+            if not header: raise GenErr('%s: fragment needs a //@ header block' % name)
+            m2 = re.search(r'fn\s+(\w+)', header)
+            fname = m2.group(1) if m2 else name + '_frag'
+            sha = hashlib.sha256(' '.join(code_texts(frag.text)).encode()).hexdigest()
+            u.rewrites.append({'rule': 'R6', 'fn': fname, 'before': 'statements of %s::%s from %r to %r' % (path, name, opts['first'], opts['last']), 'after': 'body of synthetic fn: ' + header[:120]})
+            u.functions.append({'name': fname, 'orig_name': name, 'kind': 'fn', 'path': path, 'impl': opts.get('impl'), 'line': frag.line, 'sha256': sha,
+                                'mode': opts.get('mode', 'absent'), 'stub': False, 'seg': len(u.segments), 'spec': (f, n), 'clauses': count_clauses(blocks), 'fragment': True})
+            u.emit('/*@X fragment of %s::%s L%d*/ ' % (path, name, frag.line) + G('header', '\n' + header + '\n' + blocks.get('sig', '').rstrip() + '\n{\n' + blocks.get('start', '').rstrip() + '\n'), ('spec', f, n))
+            u.emit(inner + G('close', '\n' + blocks.get('tail', '').rstrip() + '\n}') + '\n', ('src', path, frag.line, f, n))
             i = nxt; continue
         if words[0] == 'import':
             # //@ import <unit> fn <path> <name> [impl=..]
